@@ -16,7 +16,7 @@ def _xa(mk, dims, arr, nan=None, coords=None):
                     {k: mk.st.deref(v) for k, v in (coords or {}).items()})
 
 
-def spectrum(mk, kind="1d", nan=True, moments=True):
+def spectrum(mk, kind="1d", nan=True, moments=True, via_init=False):
     """symbolic spectrum object of the real class; leading dims collapsed into one (P)"""
     npnt, nf = mk.size("np"), mk.size("nf")
     f = mk.array("f", (nf,))
@@ -42,6 +42,12 @@ def spectrum(mk, kind="1d", nan=True, moments=True):
     for v in ("latitude", "longitude", "time"):
         vs[v] = _xa(mk, (P,), mk.array(v, (npnt,)))
     ds = mk.st.alloc(Obj("Dataset", {"vars": vs, "coords": {k: mk.st.deref(v) for k, v in coords.items()}}), "dataset")
+    if via_init:
+        # constructed by executing the real __init__ chain (so that attributes it sets exist)
+        from pyvc import source
+        mod, node, _ = source.locate(S + cls)
+        cval = mk.interp.module_attr(mk.st, mod, node.name)
+        return mk.interp.instantiate(mk.st, cval, [ds], {})
     return mk.instance(S + cls, {"dataset": ds})
 
 
